@@ -69,16 +69,13 @@ func (s *subPub) process() {
 	for {
 		select {
 		case info := <-s.subInfoChan:
-			var slice []*subInfo
-			v, ok := s.keyToNotifier.Load(info.key)
-			if !ok {
-				slice = make([]*subInfo, 0, 1)
-			} else {
-				slice = v.([]*subInfo)
-			}
-			slice = append(slice, &info)
-			s.keyToNotifier.Store(info.key, slice)
+			s.addSub(info)
 		case info := <-s.unsubInfoChan:
+			// A subscription is always enqueued before its unsubscription, but select
+			// may pick the unsubscription first when both are pending. Apply the pending
+			// subscriptions first, otherwise the unsubscription is a no-op and the
+			// subscription that is processed afterwards stays forever.
+			s.drainSubs()
 			v, ok := s.keyToNotifier.Load(info.key)
 			if !ok {
 				continue
@@ -97,6 +94,31 @@ func (s *subPub) process() {
 			} else {
 				s.keyToNotifier.Store(info.key, cSlice)
 			}
+		}
+	}
+}
+
+// addSub appends the subscription to the list of its key
+func (s *subPub) addSub(info subInfo) {
+	var slice []*subInfo
+	v, ok := s.keyToNotifier.Load(info.key)
+	if !ok {
+		slice = make([]*subInfo, 0, 1)
+	} else {
+		slice = v.([]*subInfo)
+	}
+	slice = append(slice, &info)
+	s.keyToNotifier.Store(info.key, slice)
+}
+
+// drainSubs applies every subscription that is already enqueued
+func (s *subPub) drainSubs() {
+	for {
+		select {
+		case info := <-s.subInfoChan:
+			s.addSub(info)
+		default:
+			return
 		}
 	}
 }
